@@ -205,6 +205,12 @@ func (d *Object) UnmarshalJSON(data []byte) error {
 	if d.payload == nil {
 		return ErrUnknownSchema
 	}
+	if _, ok := d.payload.(*Object); ok {
+		// an object cannot be its own payload: unmarshalling the same
+		// data into it would never end
+		d.payload = nil
+		return ErrUnknownSchema
+	}
 	if err := json.Unmarshal(data, d.payload); err != nil {
 		return err
 	}
